@@ -37,6 +37,12 @@ def run(ctx, rep):
     n_loops = R12.check_loops(fx, rep, "C06.1.loops", seen)
     import api_rules as AR
     AR.check_mapping_wiring(fx, rep, "C06.api")
+    # consumers: the two builders read every Ok record of the whole stream (an error item ends nothing)
+    import builder_rules as BR
+    for impl in ("mapper", "cache"):
+        rl = BR.record_loop(fx, rep, "C06.5", impl)
+        if rl is not None:
+            BR.check_record_stream(fx, rep, "C06.5", impl, rl)
     PR.check_combinators(fx, rep, "C06.2")
     PR.is_newline_set(fx, rep, "C06.2")
     PR.check_dispatch(fx, rep, "C06.2")
